@@ -7,6 +7,7 @@ pub mod c06;
 pub mod c07;
 pub mod c08;
 pub mod c09;
+pub mod c10;
 pub mod c11;
 pub mod c12;
 pub mod c13;
@@ -14,6 +15,7 @@ pub mod c14;
 pub mod c15;
 pub mod c16;
 pub mod c17;
+pub mod c18;
 pub mod c19;
 pub mod common;
 
@@ -30,6 +32,7 @@ pub fn spec(id: &str) -> Option<PropertySpec> {
         "C07" => Some(c07::spec()),
         "C08" => Some(c08::spec()),
         "C09" => Some(c09::spec()),
+        "C10" => Some(c10::spec()),
         "C11" => Some(c11::spec()),
         "C12" => Some(c12::spec()),
         "C13" => Some(c13::spec()),
@@ -37,9 +40,10 @@ pub fn spec(id: &str) -> Option<PropertySpec> {
         "C15" => Some(c15::spec()),
         "C16" => Some(c16::spec()),
         "C17" => Some(c17::spec()),
+        "C18" => Some(c18::spec()),
         "C19" => Some(c19::spec()),
         _ => None,
     }
 }
 
-pub const ALL: [&str; 17] = ["C01", "C02", "C03", "C04", "C05", "C06", "C07", "C08", "C09", "C11", "C12", "C13", "C14", "C15", "C16", "C17", "C19"];
+pub const ALL: [&str; 19] = ["C01", "C02", "C03", "C04", "C05", "C06", "C07", "C08", "C09", "C10", "C11", "C12", "C13", "C14", "C15", "C16", "C17", "C18", "C19"];
